@@ -171,9 +171,10 @@ Definition c13_big (case obs : list string) : string :=
   end.
 
 Definition c13_run (case obs : list string) : string :=
+  match obs with "HANG" :: _ => "REJECTED the-scenario-did-not-terminate | F T" | _ =>
   match case with
   | "small" :: _ :: nops :: "P" :: r =>
       match parse_nat nops with Some n => c13_small n r obs | None => "PARSE-ERROR nops" end
   | "big" :: _ :: _ :: r => c13_big r obs
   | _ => "PARSE-ERROR"
-  end.
+  end end.
